@@ -212,6 +212,10 @@ class SpecCtx(object):
     def has_local(self, k):
         return k in self._extra or k in self._st.env
 
+    def entry(self, k):
+        """value of parameter k at function entry"""
+        return self._ex.entry_args[k]
+
     def final(self, k):
         """value of local / parameter k at this point (parameters named in the contract denote entry values)"""
         return self._st.env[k]
